@@ -190,8 +190,7 @@ def run(ctx):
                     if "guard" not in a and any(pat_def(strip_ref(x)) == SS + "RevokedAt" or SS + "RevokedAt" in {t[4:] for t in tokens(x) if t.startswith("def:")}
                                                 for x in top_alternatives(a["pat"])):
                         break
-            bad = [a for a in hit if any(not (unwrap(l).get("e") == "lit" and unwrap(l).get("v") == "false") for l in value_leaves(a["body"]))
-                   and any(SS + "RevokedAt" in {t[4:] for t in tokens(x) if t.startswith("def:")} for x in top_alternatives(a["pat"]))]
+            bad = [a for a in hit if any(not (unwrap(l).get("e") == "lit" and unwrap(l).get("v") == "false") for l in value_leaves(a["body"]))]
             ctx.check(bool(hit) and not bad, "K3-uat-valid", uatv["fn"], "revoked=>false", "RevokedAt -> false",
                       f"a session in state RevokedAt does not always yield false (arm `{pat_s(bad[0]['pat']) if bad else '?'}`) — revoked sessions would stay usable",
                       file=uatv["file"], line=(bad[0]["body"].get("line") if bad else m.get("line")))
